@@ -86,6 +86,12 @@ func genOps(t *rapid.T, label string, lo, hi int, s *sut.Server) []op {
 			ops = append(ops, op{Actor: actor, Select: &db})
 			continue
 		}
+		if rapid.IntRange(0, 7).Draw(t, "adv") == 0 {
+			// virtual time passes between commands: a relative expiry that is replayed relatively (at restore
+			// time) instead of with the deadline it produced shows up even when the restore happens at once
+			ops = append(ops, op{Actor: actor, Advance: rapid.SampledFrom([]int64{1, 1500, 70000}).Draw(t, "advance")})
+			continue
+		}
 		if rapid.IntRange(0, 11).Draw(t, "rewrite") == 0 {
 			// a log rewrite in the middle of the workload: what is logged afterwards must still be replayed
 			// into the right database and on top of the right state (the rewrite itself is C09's subject)
@@ -228,6 +234,10 @@ func runCase(t *rapid.T, replay *workload) {
 	lastLogBefore := int64(0)
 	var syncedLen int64 = -1
 	for i, o := range w.Ops {
+		if o.Advance != 0 {
+			s.Clock.Advance(time.Duration(o.Advance) * time.Millisecond)
+			continue
+		}
 		if o.Select != nil {
 			if o.Actor == "tcp" {
 				conn.Do("SELECT", fmt.Sprint(*o.Select))
@@ -291,7 +301,15 @@ func runCase(t *rapid.T, replay *workload) {
 		}
 		var diffs []string
 		for _, idx := range allowed {
-			d := got.Diff(c.D[idx])
+			// what was recorded then, minus the keys whose deadline has passed by the time of the restore
+			want := sut.Digest{}
+			for k, ks := range c.D[idx] {
+				if ks.Deadline > 0 && ks.Deadline < clockMs {
+					continue
+				}
+				want[k] = ks
+			}
+			d := got.Diff(want)
 			if d == "" {
 				return got
 			}
@@ -402,6 +420,10 @@ func runCase(t *rapid.T, replay *workload) {
 	}
 	emb2 := 0
 	for _, o := range w.Gen2 {
+		if o.Advance != 0 {
+			clk.Advance(time.Duration(o.Advance) * time.Millisecond)
+			continue
+		}
 		if o.Select != nil {
 			_ = r.Select(*o.Select)
 			emb2 = *o.Select
@@ -477,7 +499,9 @@ func explainRestart(w workload, diff string) string {
 func renderOps(ops []op) []string {
 	out := []string{}
 	for _, o := range ops {
-		if o.Select != nil {
+		if o.Advance != 0 {
+			out = append(out, fmt.Sprintf("advance %d ms", o.Advance))
+		} else if o.Select != nil {
 			out = append(out, fmt.Sprintf("%s select %d", o.Actor, *o.Select))
 		} else {
 			out = append(out, fmt.Sprintf("%s %q", o.Actor, o.Cmd))
